@@ -924,11 +924,22 @@ func ruleConnectLifecycle(c *Ctx) {
 		fl := gb.Body
 		name := []string{"receiver", "sender"}[i]
 		hasDone, hasInform, hasExit := false, false, false
-		for _, st := range fl.List {
-			ds, ok := st.(*ast.DeferStmt)
-			if !ok {
-				continue
+		// the goroutine's deferred calls: at the top level of its body, and at the top level of a helper spliced in as
+		// its last statement (the helper's defers run when the goroutine ends)
+		var defers []*ast.DeferStmt
+		for list := fl.List; len(list) > 0; {
+			for _, st := range list {
+				if ds, ok := st.(*ast.DeferStmt); ok {
+					defers = append(defers, ds)
+				}
 			}
+			tail, ok := list[len(list)-1].(*ast.BlockStmt)
+			if !ok || inlineFrames[tail] == nil {
+				break
+			}
+			list = tail.List
+		}
+		for _, ds := range defers {
 			if isWG(ds.Call, "Done") {
 				hasDone = true
 			}
